@@ -247,6 +247,9 @@ func runC04(c *Ctx, _ []string) {
 		shape := dataShapes[r.Intn(len(dataShapes))]
 		blocks := r.Range(1, 9)
 		size := blocks*int(cfg.Block) - r.Intn(int(cfg.Block))
+		if i%3 == 2 && blocks >= 2 { // a tiny last block (<= 16 bytes: stored as it is) sharing its batch with full ones
+			size = (blocks-1)*int(cfg.Block) + r.Range(1, 16)
+		}
 		if i%5 == 0 { // heterogeneous data: an ELF-like first block followed by text (per-block data type detection)
 			shape = "exe+text"
 		}
@@ -394,10 +397,16 @@ func runC05(c *Ctx, _ []string) {
 			cfg.Block = 4096
 			size = nb*4096 - r.Intn(4096)
 		}
+		many := i < 3 // more blocks than the 6-bit block-count hint of the header can express (63 = "63 or more")
+		if many {
+			cfg.Block = 1024
+			nb = []int{64, 65, 130}[i]
+			size = nb*1024 - r.Intn(1024)
+		}
 		dseed := r.U64()
 		data := mkData(shape, size, dseed)
 		hk := setHint(r, &cfg, size)
-		if hk == "smaller" {
+		if hk == "smaller" || many {
 			cfg.Hint = int64(size)
 		}
 		stream, stage, err := compress(cfg, data, nil)
